@@ -20,6 +20,13 @@ func atomic(t string, prefix string, ts int64, vals ...int64) op {
 	}
 	return o
 }
+func atomicNamed(t string, prefix string, ts int64, names []string, vals ...int64) op {
+	o := op{kind: "atomic", target: t, ts: ts, prefix: ps(prefix)}
+	for i, v := range vals {
+		o.ups = append(o.ups, updSpec{ps(names[i]), v})
+	}
+	return o
+}
 func life(kind, t string) op { return op{kind: kind, target: t} }
 func updO(t, origin, p string, ts, v int64) op {
 	o := upd(t, p, ts, v)
@@ -71,6 +78,20 @@ func specsC02(tier string) []seqmc.Spec {
 		}
 		out = append(out, mkSpec(cfg, depth))
 	}
+	// structured kinds and NaN on one leaf: never equal for the suppression
+	// test, yet a re-sent identical notification is stale and a different one
+	// at the same timestamp replaces
+	for _, ev := range []bool{true, false} {
+		cfg := &specCfg{name: fmt.Sprintf("structured values (json, ascii, NaN) eventDriven=%v ts=1..3 (closure)", ev), targets: []string{"t"}, eventDriven: ev, fixedClock: 2,
+			oracles: oset("errclass", "state", "latest")}
+		for _, ts := range []int64{1, 2, 3} {
+			for _, v := range []int64{1005, 1006, 1007, 1008, 1} {
+				cfg.ops = append(cfg.ops, upd("t", "s", ts, v))
+			}
+		}
+		cfg.ops = append(cfg.ops, del("t", "s", 2), del("t", "*", 4))
+		out = append(out, mkSpec(cfg, 40))
+	}
 	if tier == "thorough" {
 		all := []int64{1, 2, 3, 4, 5}
 		for _, ev := range []bool{true, false} {
@@ -121,6 +142,9 @@ func specsC03(tier string) []seqmc.Spec {
 		cfg.ops = append(cfg.ops, upd("t1", "x", 1, 1003), upd("t1", "x", 2, 1004))
 		// a leaf stamped far ahead of the collector's clock (device time is not collector time)
 		cfg.ops = append(cfg.ops, upd("t1", "f", 1<<40, 4))
+		// atomic groups at one prefix whose member PATHS differ while the values
+		// agree position by position (a keyed row replaced by another)
+		cfg.ops = append(cfg.ops, atomicNamed("t1", "k", 3, []string{"m", "p"}, 1, 2), atomicNamed("t1", "k", 2, []string{"p", "n"}, 1, 1))
 		for _, q := range []string{"x", "a", "a/b", "*", "k"} {
 			cfg.ops = append(cfg.ops, del("t1", q, 3))
 		}
@@ -135,6 +159,17 @@ func specsC03(tier string) []seqmc.Spec {
 		cfg.ops = append(cfg.ops, m1, m2, m3, m4, m5, m6)
 		cfg.ops = append(cfg.ops, life("reset", "t1"), life("remove", "t1"), life("add", "t1"), life("remove", "t2"))
 		out = append(out, mkSpec(cfg, depth))
+	}
+	for _, ev := range []bool{true, false} {
+		cfg := &specCfg{name: fmt.Sprintf("structured values (json, ascii, NaN), eventDriven=%v (closure)", ev), targets: []string{"t1"}, eventDriven: ev,
+			oracles: oset("errclass", "state", "feed", "replica", "caller")}
+		for _, ts := range []int64{1, 2, 3} {
+			for _, v := range []int64{1005, 1006, 1007, 1008, 1} {
+				cfg.ops = append(cfg.ops, upd("t1", "s", ts, v))
+			}
+		}
+		cfg.ops = append(cfg.ops, del("t1", "s", 2), del("t1", "*", 4))
+		out = append(out, mkSpec(cfg, 40))
 	}
 	if tier == "thorough" {
 		mk("two targets, eventDriven=true, rich", true, 5, true)
